@@ -245,7 +245,7 @@ Definition is_unsigned_m (k : cfg) (t : cty) : bool :=
 (** * decay / remove_cvref *)
 Definition decay_m (t : cty) : cty :=
   let u := remove_reference_m t in
-  if is_array_m u then Ptr (remove_extent_m u)                       (* remove_extent_t<U>* *)
+  if is_array_m u then add_pointer_m (remove_extent_m u)            (* add_pointer_t<remove_extent_t<U>> *)
   else if is_function_m u then add_pointer_m u
   else remove_cv_m u.
 Definition remove_cvref_m (t : cty) : cty := remove_cv_m (remove_reference_m t).
